@@ -2,13 +2,13 @@ package main
 
 import (
 	"fmt"
-	"sync"
 	"go/constant"
 	"go/token"
 	"go/types"
 	"math/big"
 	"sort"
 	"strings"
+	"sync"
 
 	"golang.org/x/tools/go/packages"
 	"golang.org/x/tools/go/ssa"
@@ -58,56 +58,57 @@ type Obligation struct {
 	Expect    string // "unsat" normally; "sat" for cover/smoke
 	Res       SolverResult
 	Script    string
-	Inputs    []string // names of SMT constants that are inputs (for replay)
+	Inputs    []string    // names of SMT constants that are inputs (for replay)
 	Lemma     bool        // smoke of a lemma: all its named hypotheses are part of the script
 	Before    *Obligation // cover pairs: reachability just before the assumed contract
 }
 
 // FV verifies one function (with its inlined callees).
 type FV struct {
-	useClock  bool // the contracts in play use now(): keep a logical clock
-	imkCtr    int
-	ptrLocs   map[Term]*Loc // pointer terms that denote locations inside values (element / field-of-element addresses)
-	noTriggers bool // proving a lemma: its own trigger annotations are not emitted
-	inBinder  int // >0 while translating the body of a quantifier
-	eng       *Engine
-	top       *ssa.Function
-	con       *Contract
-	mode      Mode
-	preamble  []string
-	preSeen   map[string]bool
-	script    []string
-	arrays    map[string]string // heap array name -> sort
-	refArrays map[string]bool   // arrays whose Int elements are references
-	freshSet  map[string]bool   // reference terms allocated by this function
-	curSt     *State            // state of the instruction being executed (allocation counter lives in its heap)
-	regions   bool              // split every heap array into pre-existing / newly allocated objects
-	sliceArr  map[string]Term   // defined slice name -> its backing array ref term (when statically known)
-	stableArrays map[string]bool // field arrays that survive havoc (stable declarations)
+	useClock       bool // the contracts in play use now(): keep a logical clock
+	imkCtr         int
+	inGlobalInv    bool
+	ptrLocs        map[Term]*Loc // pointer terms that denote locations inside values (element / field-of-element addresses)
+	noTriggers     bool          // proving a lemma: its own trigger annotations are not emitted
+	inBinder       int           // >0 while translating the body of a quantifier
+	eng            *Engine
+	top            *ssa.Function
+	con            *Contract
+	mode           Mode
+	preamble       []string
+	preSeen        map[string]bool
+	script         []string
+	arrays         map[string]string // heap array name -> sort
+	refArrays      map[string]bool   // arrays whose Int elements are references
+	freshSet       map[string]bool   // reference terms allocated by this function
+	curSt          *State            // state of the instruction being executed (allocation counter lives in its heap)
+	regions        bool              // split every heap array into pre-existing / newly allocated objects
+	sliceArr       map[string]Term   // defined slice name -> its backing array ref term (when statically known)
+	stableArrays   map[string]bool   // field arrays that survive havoc (stable declarations)
 	protectedCells []protectedCell
-	obls      []*Obligation
-	ctr       int
-	epochCtr  int
-	fresh     []Term // fresh refs allocated so far
-	n0        Term
-	quiet     int // >0: obligations suppressed (pure evaluation)
-	assumed   map[string]bool
-	trusted   map[string]bool // external contracts / assumptions used
-	notes     []string
-	oblNames  map[string]int
-	strLits   map[string]Term
-	inputs    []string
-	kindCount map[string]int
-	unsupported []string
-	curFnKey  string
-	inlineStack []string
-	locksetOK   int
-	topFrame    *Frame
-	curFrame    *Frame
-	sections    map[string]int // lock field -> critical sections entered by the top function on its receiver
-	subCtr      int
-	axioms      []axiomTerm
-	axMu        sync.Mutex
+	obls           []*Obligation
+	ctr            int
+	epochCtr       int
+	fresh          []Term // fresh refs allocated so far
+	n0             Term
+	quiet          int // >0: obligations suppressed (pure evaluation)
+	assumed        map[string]bool
+	trusted        map[string]bool // external contracts / assumptions used
+	notes          []string
+	oblNames       map[string]int
+	strLits        map[string]Term
+	inputs         []string
+	kindCount      map[string]int
+	unsupported    []string
+	curFnKey       string
+	inlineStack    []string
+	locksetOK      int
+	topFrame       *Frame
+	curFrame       *Frame
+	sections       map[string]int // lock field -> critical sections entered by the top function on its receiver
+	subCtr         int
+	axioms         []axiomTerm
+	axMu           sync.Mutex
 }
 
 func (v *FV) idx() string {
@@ -732,6 +733,25 @@ func (v *FV) heapSet(s *Snapshot, name string, t Term) {
 	s.over[name] = n
 }
 
+// assumeGlobalInvs: declared invariants of package variables (error values are non-nil, the calculators have
+// their types) hold in every state - nothing under contract assigns these variables.
+func (v *FV) assumeGlobalInvs(s *Snapshot) {
+	if v.top == nil || v.top.Pkg == nil || v.inGlobalInv {
+		return
+	}
+	v.inGlobalInv = true
+	defer func() { v.inGlobalInv = false }()
+	for _, gi := range v.eng.db.GlobalInvs {
+		if gi.Pkg != v.top.Pkg.Pkg.Path() {
+			continue
+		}
+		genv := &ExprEnv{v: v, vars: map[string]TV{}, snap: s, pkg: v.top.Pkg.Pkg, what: "globalinv"}
+		if t, err := genv.EvalBool(gi.Text); err == nil {
+			v.assume("true", t)
+		}
+	}
+}
+
 func (v *FV) havocAll(s *Snapshot) {
 	prev := &Snapshot{ep: s.ep, over: s.over}
 	s.ep = v.newEpoch(0)
@@ -747,6 +767,7 @@ func (v *FV) preserveAcrossHavoc(prev, s *Snapshot) {
 
 // loopBody != nil: havoc at a loop head; cells assigned inside the loop are not preserved.
 func (v *FV) preserveAcrossHavocIn(prev, s *Snapshot, loopBody map[*ssa.BasicBlock]bool) {
+	v.assumeGlobalInvs(s)
 	if _, ok := v.arrays["TOP"]; ok {
 		// objects are never un-allocated
 		v.emit(fmt.Sprintf("(assert (>= %s %s))", v.topOf(s), v.topOf(prev)))
